@@ -125,6 +125,9 @@ def compute_probabilities_of_getting_resumed(
     else:
         non_trivial_index = None
     num_trials = c_vals.size
+    if num_trials == 0:
+        # The condition is already fulfilled for all candidates
+        return np.ones(orig_num_trials)
     c_vals = c_vals.reshape((1, -1))
     prom_quants = prom_quants.reshape((1, -1))
     p_vals = p_vals.reshape((1, -1))
